@@ -374,6 +374,60 @@ def check_mixture(ctx, L, rng, names):
                       mech='mixture-string-codes-and-names')
 
 
+def check_nested(ctx, L, rng, names):
+    """the same spelling used twice in one value (nested ranges with a conflicting setting in between, or a second
+    non-topmost application) must report, character by character, what the canonical objects report: two uses of
+    one spelling are two independent settings"""
+    AF = L.AnsiFormat
+    kind = rng.randrange(4)
+    if kind == 0:
+        r, g, b = rng.randint(0, 255), rng.randint(0, 255), rng.randint(0, 255)
+        spelled = 'rgb(%d,%d,%d)' % (r, g, b)
+        canon = lambda: AF.rgb(r, g, b)     # noqa: E731
+        other = 'blue'
+    elif kind == 1:
+        n = rng.randint(0, 255)
+        spelled = 'bg_color256(%d)' % n
+        canon = lambda: AF.bg_color256(n)   # noqa: E731
+        other = 'bg_red'
+    elif kind == 2:
+        name = rng.choice([x for x in names if x.startswith('FG_')])
+        spelled = name.lower()
+        canon = lambda: AF[name]            # noqa: E731
+        other = 'rgb(9,9,9)'
+    else:
+        name = rng.choice([x for x in names if x.startswith('BG_')])
+        spelled = ';'.join(str(s) for s in AF[name].ansi_settings)
+        canon = lambda: AF[name]            # noqa: E731
+        other = 'bg_blue'
+    plan = rng.choice([[(0, 10, True), ('o', 2, 8, True), (4, 6, True)],
+                       [(0, 5, True), ('o', 3, 8, True), (5, 10, True)],
+                       [(2, 9, True), ('o', 0, 10, True), (4, 7, False)],
+                       [(0, 10, True), (3, 6, True), ('o', 1, 9, False)]])
+
+    def build(use_spelled):
+        s = L.AnsiString('abcdefghij')
+        for step in plan:
+            if step[0] == 'o':
+                s.apply_formatting(other, step[1], step[2], topmost=step[3])
+            else:
+                s.apply_formatting(spelled if use_spelled else canon(), step[0], step[1], topmost=step[2])
+        return [s.settings_at(i) for i in range(10)], str(s)
+
+    ctx.ev('nested-twice')
+    ctx.sig('nested-twice')
+    ctx.nontriv(('nested', spelled, repr(plan)))
+    try:
+        a = build(True)
+        b = build(False)
+    except Exception as e:
+        ctx.violation('nested-twice-raised', {'spelling': spelled, 'plan': repr(plan), 'error': repr(e)}, mech='nested-twice-raised')
+        return
+    if a != b:
+        ctx.violation('nested-twice-differs', {'spelling': spelled, 'plan': repr(plan), 'spelled': a[0], 'canonical': b[0]},
+                      mech='spelling-shares-objects')
+
+
 def contracts(ctx, mon):
     return []
 
@@ -405,5 +459,7 @@ def drive(ctx, mon, tier, only_case=None):
                 check_negative(ctx, L, rng)
             for _ in range(6):
                 check_mixture(ctx, L, rng, names)
+            for _ in range(4):
+                check_nested(ctx, L, rng, names)
 
     run_cases(ctx, mon, CASES[tier], body, only_case=only_case)
